@@ -2,6 +2,7 @@ package world
 
 import (
 	"encoding/json"
+	"regexp"
 	"sort"
 	"strings"
 )
@@ -56,8 +57,11 @@ func JSONExpressible(e *Expr) bool {
 		return false
 	}
 	switch e.K {
-	case "str", "num", "bool", "null", "ref", "type":
+	case "str", "num", "bool", "null", "ref", "type", "kw":
 		return true
+	case "raw":
+		_, ok := rawLiteralJSON(e.S)
+		return ok
 	case "tmpl":
 		for _, a := range e.A {
 			if a.K != "str" && a.K != "ref" {
@@ -86,6 +90,54 @@ func JSONExpressible(e *Expr) bool {
 	return false
 }
 
+var rawObjRe = regexp.MustCompile(`^\{\s*([A-Za-z_][A-Za-z0-9_]*)\s*=\s*("[^"\\$%]*")\s*\}$`)
+
+// rawLiteralJSON translates the literal source texts the generator uses for
+// fixed values ("s3", 42, true, ["a","b"], { k = "v" }) to JSON values.
+func rawLiteralJSON(src string) (any, bool) {
+	src = strings.TrimSpace(src)
+	if strings.Contains(src, "${") || strings.Contains(src, "%{") {
+		return nil, false
+	}
+	if m := rawObjRe.FindStringSubmatch(src); m != nil {
+		o := newObj()
+		var v string
+		if json.Unmarshal([]byte(m[2]), &v) != nil {
+			return nil, false
+		}
+		o.set(m[1], v)
+		return o, true
+	}
+	switch src {
+	case "true":
+		return true, true
+	case "false":
+		return false, true
+	}
+	// strings (same escapes as JSON for what the generator emits), numbers,
+	// lists of those
+	if src == "" || !strings.ContainsAny(src[:1], "\"[0123456789-") {
+		return nil, false
+	}
+	dec := json.NewDecoder(strings.NewReader(src))
+	dec.UseNumber()
+	var v any
+	if err := dec.Decode(&v); err != nil || dec.More() {
+		return nil, false
+	}
+	return v, true
+}
+
+// RawLiteralString returns the value of a fixed-value source text that is a string.
+func RawLiteralString(src string) (string, bool) {
+	v, ok := rawLiteralJSON(src)
+	if !ok {
+		return "", false
+	}
+	s, ok := v.(string)
+	return s, ok
+}
+
 func jsonExpr(e *Expr) any {
 	switch e.K {
 	case "str":
@@ -98,8 +150,11 @@ func jsonExpr(e *Expr) any {
 		return nil
 	case "ref":
 		return "${" + e.S + "}"
-	case "type":
-		return e.S // type expressions are written as strings in JSON
+	case "type", "kw":
+		return e.S // type expressions and keywords are written as strings in JSON
+	case "raw":
+		v, _ := rawLiteralJSON(e.S)
+		return v
 	case "tmpl":
 		var b strings.Builder
 		for _, a := range e.A {
@@ -148,6 +203,53 @@ func ItemsJSONExpressible(items []*Item) bool {
 		}
 	}
 	return true
+}
+
+// WhyNotJSON names the first reason ItemsJSONExpressible fails (reach probe).
+func WhyNotJSON(items []*Item) string {
+	seen := map[string]bool{}
+	for _, it := range items {
+		if it.Attr != nil {
+			if seen[it.Attr.Name] {
+				return "duplicate_attr"
+			}
+			if !JSONExpressible(it.Attr.Expr) {
+				why := "expr"
+				it.Attr.Expr.Walk(func(e *Expr) {
+					if why == "expr" && !JSONExpressible(e) {
+						why = "expr_" + e.K
+					}
+				})
+				// innermost reason: last failing sub-expression kind
+				it.Attr.Expr.Walk(func(e *Expr) {
+					if !JSONExpressible(e) {
+						leaf := true
+						for _, a := range e.A {
+							if !JSONExpressible(a) {
+								leaf = false
+							}
+						}
+						if leaf {
+							why = "expr_" + e.K
+						}
+					}
+				})
+				return why
+			}
+			seen[it.Attr.Name] = true
+		}
+		if it.Block != nil {
+			if w := WhyNotJSON(it.Block.Body); w != "" {
+				return w
+			}
+		}
+	}
+	for _, it := range items {
+		if it.Block != nil && seen[it.Block.Type] {
+			return "attr_block_clash"
+		}
+	}
+	return ""
 }
 
 func jsonBody(items []*Item) *jsonObj {
